@@ -169,4 +169,12 @@ PROPS = {
                                   "harness/gen/gen_derive.py writes each declaration both as Rust source and as the Decl the model reads"],
         assumptions=["the supported grammar is the generator's (structs/enums; named/unnamed/unit; 0-2 type parameters, optional lifetime; nested modules incl. raw identifiers; codec skip/compact/index/encoded_as, explicit discriminants; scale_info rename/skip_type_params/capture_docs/replace_segment; doc attributes)"],
     ),
+    'C03': dict(
+        streams=[dict(name='derive', pg=True, mode='derive', gen='gen_derive.py', quick=60, thorough=400, filter=only('C03:'))],
+        rule=DERIVE_RULE + " C03 oracle: SIM.Value.decodeVal run on the REAL registry and the REAL bytes of each value must return exactly the expected value (variant name and index, field names, order, leaves) and no remainder; for enums the first byte must be the variant index of the metadata. Values: integer leaves at compact-class boundaries and extremes, both signs, collections of 0-3 elements, recursion through Option<Box<Self>> / Vec<Self> to depth 3.",
+        trusted_base=COMMON_TB + ["parity-scale-codec-derive 3.7.5 (field order, skip, compact, index rules) is modelled by Spec.ValOfD / FieldValsD + Value.encode and tied by comparing bytes on every generated value",
+                                  "harness/gen/gen_derive.py writes, for each Rust value expression, the Val it denotes"],
+        assumptions=["declarations with #[codec(encoded_as)] are outside the theorem (KNOWN-FINDING codec-encoded_as-ignored)",
+                     "indices of non-skipped variants are pairwise distinct (the codec derive rejects anything else at compile time)"],
+    ),
 }
